@@ -32,6 +32,7 @@ import decimal
 import numpy
 
 from ..extract import HEADER, Src, lean_list, lean_str
+from . import c05_frames as fr
 
 PINNED = [["BOOLEAN", "bool"], ["BLOB", "bytes"], ["DATE", "date"], ["TIMESTAMP", "datetime"], ["TIME", "time"],
           ["INTERVAL", "timedelta"], ["STRUCT", "dict"], ["DECIMAL", "Decimal"], ["DOUBLE", "float"], ["INTEGER", "int"],
@@ -175,6 +176,74 @@ class LoopTranslator:
         raise Unrecognised("statement %s" % ast.unparse(st)[:60])
 
 
+class LoopTranslatorE(LoopTranslator):
+    """The same loop body with Python's evaluation order: a test is evaluated left to right and short-circuits,
+    `data[col.name]` raises KeyError when the key is absent, `ORSO_TO_PYTHON_MAP[col.type]` raises KeyError for an
+    untyped column.  -> Lean `Option (List String)` (`none` = an exception escapes the loop)."""
+
+    def __init__(self, col, data):
+        super().__init__(col, data)
+        self.aliases = set()
+
+    def value_ok(self, v):
+        return "true" if v in self.aliases else "present"
+
+    def condE(self, n):
+        t = ast.unparse(n)
+        col, data = self.col, self.data
+        if isinstance(n, ast.UnaryOp) and isinstance(n.op, ast.Not):
+            return "(notE %s)" % self.condE(n.operand)
+        if isinstance(n, ast.BoolOp):
+            vs = [self.condE(v) for v in n.values]
+            acc = vs[-1]
+            for v in reversed(vs[:-1]):
+                acc = "(%s %s %s)" % ("andE" if isinstance(n.op, ast.And) else "orE", v, acc)
+            return acc
+        plain = {"%s.name in %s" % (col, data): "present", "%s.name not in %s" % (col, data): "(!present)", "%s.nullable" % col: "nullable"}
+        if t in plain:
+            return "(some %s)" % plain[t]
+        if t in ("%s.type != OrsoTypes._MISSING_TYPE" % col, "%s.type is not OrsoTypes._MISSING_TYPE" % col, "OrsoTypes._MISSING_TYPE != %s.type" % col):
+            return "(some typed)"
+        if t in ("%s.type == OrsoTypes._MISSING_TYPE" % col, "%s.type is OrsoTypes._MISSING_TYPE" % col, "OrsoTypes._MISSING_TYPE == %s.type" % col):
+            return "(some (!typed))"
+        for v in sorted(self.lookup_texts()):
+            if t == "%s is None" % v:
+                return "(valueE %s isNone)" % self.value_ok(v)
+            if t == "%s is not None" % v:
+                return "(valueE %s (!isNone))" % self.value_ok(v)
+            if t == "isinstance(%s, ORSO_TO_PYTHON_MAP[%s.type])" % (v, col):
+                return "(valueE (%s && typed) inst)" % self.value_ok(v)
+        raise Unrecognised("condition %s" % t[:60])
+
+    def blockE(self, stmts):
+        if not stmts:
+            return "(some [])"
+        st, rest = stmts[0], list(stmts[1:])
+        if isinstance(st, ast.Pass) or _is_docstring(st):
+            return self.blockE(rest)
+        if isinstance(st, ast.Continue):
+            return "(some [])"
+        if isinstance(st, ast.Assign) and len(st.targets) == 1 and isinstance(st.targets[0], ast.Name) \
+                and ast.unparse(st.value) == "%s[%s.name]" % (self.data, self.col):
+            self.value_names.add(st.targets[0].id)
+            self.aliases.add(st.targets[0].id)
+            return "(if present then %s else none)" % self.blockE(rest)
+        if isinstance(st, ast.Expr) and isinstance(st.value, ast.Call):
+            c = st.value
+            f = c.func
+            if isinstance(f, ast.Attribute) and f.attr == "append" and isinstance(f.value, ast.Subscript) \
+                    and isinstance(f.value.value, ast.Name) and f.value.value.id == "errors" \
+                    and isinstance(f.value.slice, ast.Constant) and isinstance(f.value.slice.value, str) and len(c.args) == 1:
+                a = c.args[0]
+                first = a.elts[0] if isinstance(a, ast.Tuple) and a.elts else a
+                if ast.unparse(first) != "%s.name" % self.col:
+                    raise Unrecognised("appended value %s" % ast.unparse(a)[:40])
+                return "(consE %s %s)" % (lean_str(f.value.slice.value), self.blockE(rest))
+        if isinstance(st, ast.If):
+            return "(iteE %s %s %s)" % (self.condE(st.test), self.blockE(list(st.body) + rest), self.blockE(list(st.orelse) + rest))
+        raise Unrecognised("statement %s" % ast.unparse(st)[:60])
+
+
 # ----------------------------------------------------------------------------- validate: the top level
 
 
@@ -211,7 +280,9 @@ def translate_top(fn):
         t = ast.unparse(n)
         if isinstance(n, ast.UnaryOp) and isinstance(n.op, ast.Not):
             return "(!%s)" % atom(n.operand)
-        if t == "isinstance(%s, MutableMapping)" % data:
+        if t in ("isinstance(%s, MutableMapping)" % data, "isinstance(%s, Mapping)" % data, "isinstance(%s, dict)" % data,
+                 "isinstance(%s, collections.abc.MutableMapping)" % data, "isinstance(%s, collections.abc.Mapping)" % data):
+            # WHICH objects pass the test is `Gen.AppendFlow.guardAccepts`
             return "(!notMapping)"
         if state["excess_name"] and t in (state["excess_name"], "len(%s) > 0" % state["excess_name"]):
             return "excess"
@@ -451,10 +522,12 @@ def generate(o):
         top, against, loop, data = translate_top(fn)
         tr = LoopTranslator(loop.target.id, data)
         rule = tr.block(list(loop.body))
-        return {"top": top, "against": against, "rule": rule, "keys": sorted(set(tr.keys))}
+        rule_e = LoopTranslatorE(loop.target.id, data).blockE(list(loop.body))
+        return {"top": top, "against": against, "rule": rule, "keys": sorted(set(tr.keys)), "rule_e": rule_e}
 
     fl = o.item("schema.validate.flow", flow, {"top": PIN_TOP, "against": "name", "rule": PIN_RULE,
-                                                "keys": sorted([KEY_MISSING, KEY_NULL, KEY_WRONG])})
+                                                "keys": sorted([KEY_MISSING, KEY_NULL, KEY_WRONG]),
+                                                "rule_e": "(some (columnRule present isNone nullable typed inst))"})
 
     def reads():
         s_r, c_r, hidden, s_f, c_f = reads_of(schema.tree, "RelationSchema", "validate", "FlatColumn")
@@ -469,11 +542,21 @@ def generate(o):
     st = o.item("dataframe.append.steps", steps, PIN_STEPS)
     st = [s for s in st if s in STEP_NAMES]
 
-    t = HEADER + "namespace Gen.ValidateFlow\n"
+    t = HEADER + "set_option linter.unusedVariables false\nnamespace Gen.ValidateFlow\n"
     t += "/-- how `validate` exits -/\ninductive Exit where\n  | typeError | excess | invalid | ok | other\n  deriving DecidableEq, Repr\n"
     t += "/-- what `DataFrame.append` does, statement by statement -/\ninductive Step where\n  | validate | coerce | build | size | materialize | store | count | cursor\n  deriving DecidableEq, Repr\n"
     t += "/-- schema.py `RelationSchema.validate`, the body of `for column in self.columns`: the error-dict keys a column is appended to -/\n"
     t += "def columnRule (present isNone nullable typed inst : Bool) : List String :=\n  %s\n" % fl["rule"]
+    t += "/-- a test that may raise (`none`): `and` / `or` evaluate left to right and short-circuit -/\n"
+    t += "def andE (a b : Option Bool) : Option Bool := match a with\n  | some true => b\n  | other => other\n"
+    t += "def orE (a b : Option Bool) : Option Bool := match a with\n  | some false => b\n  | other => other\n"
+    t += "def notE (a : Option Bool) : Option Bool := a.map (!·)\n"
+    t += "/-- a test on `data[column.name]` / `ORSO_TO_PYTHON_MAP[column.type]`: raises KeyError unless the key is there -/\n"
+    t += "def valueE (there v : Bool) : Option Bool := if there then some v else none\n"
+    t += "def iteE (c : Option Bool) (t e : Option (List String)) : Option (List String) := match c with\n  | none => none\n  | some true => t\n  | some false => e\n"
+    t += "def consE (k : String) (r : Option (List String)) : Option (List String) := r.map (k :: ·)\n"
+    t += "/-- the same loop body with Python's evaluation order: `none` = an exception (KeyError) escapes the loop -/\n"
+    t += "def columnRuleE (present isNone nullable typed inst : Bool) : Option (List String) :=\n  %s\n" % fl["rule_e"]
     t += "/-- schema.py `RelationSchema.validate`, top level: the order of the checks and how the function exits -/\n"
     t += "def top (notMapping excess errors : Bool) : Exit :=\n  %s\n" % fl["top"]
     t += "/-- what the record's keys are compared with: \"name\" (column names) or \"all_names\" (names and aliases) -/\n"
@@ -491,3 +574,18 @@ def generate(o):
     t += "def columnFields : List String := %s\n" % lean_list(rd["column_fields"], lean_str)
     t += "end Gen.ValidateFlow\n"
     o.files["ValidateFlow.lean"] = t
+
+    # ---- what a record object may be, and who owns a frame's row list
+    rowsrc = Src("orso/row.py")
+    frame_cls = lambda: _cls(frame.tree, "DataFrame")
+    items = {
+        "guard": o.item("schema.validate.guard", lambda: fr.validate_guard(_method(_cls(schema.tree, "RelationSchema"), "validate")), fr.PIN_GUARD),
+        "coerce": o.item("dataframe.append.coerce", lambda: fr.coerce_guard(_method(frame_cls(), "append")), fr.PIN_COERCE),
+        "rowreads": o.item("row.new.reads", lambda: fr.row_reads(_method(_cls(rowsrc.tree, "Row"), "__new__")), fr.PIN_ROWREADS),
+        "slice": o.item("dataframe.slice.tree", lambda: fr.slice_tree(_method(frame_cls(), "slice")), fr.PIN_SLICE),
+        "head": o.item("dataframe.head.call", lambda: fr.slice_call(_method(frame_cls(), "head")), fr.PIN_HEAD),
+        "tail": o.item("dataframe.tail.call", lambda: fr.slice_call(_method(frame_cls(), "tail")), fr.PIN_TAIL),
+        "derived": o.item("dataframe.derived.rows", lambda: fr.derived_rows(frame_cls()), fr.PIN_DERIVED),
+        "errors": o.item("exceptions.validation.errors", lambda: fr.error_classes(Src("orso/exceptions.py").tree), fr.PIN_ERRORS),
+    }
+    o.files["AppendFlow.lean"] = fr.lean_text(HEADER, items)
